@@ -35,13 +35,14 @@ def unreset : List (String × String) :=
     (known finding KF36, row 36 of DESIGN section 6).  Rows 12 and 37 (`__delitem__`, `settings.errors`,
     `settings.base_schema`, `_schemas`, `set_size`) have been repaired: if one of them comes back the generated table
     changes and this theorem no longer checks. -/
-def knownUnreset : List (String × String) :=
-  [("nested", "apischema.dependencies._dependent_requireds"),
-   ("nested", "apischema.graphql.resolvers._resolvers"),
-   ("nested", "apischema.validation.validators._validators"),
-   ("nested", "apischema.serialization.serialized_methods._serialized_methods")]
+def knownUnreset : List (String × String) := []     -- (row 36, the four nested in-place registrations, repaired)
 
 theorem unreset_are_known : unreset.all knownUnreset.contains = true := by decide
+
+/-- **every mutation path of the configuration resets the caches**: the table the translator reads from the source lists
+    no path without a reset (if one appears - a new registry, an in-place mutation, a settings class without the
+    metaclass - the generated table changes and this no longer checks) -/
+theorem no_unreset_path : unreset = [] := by decide
 
 /-- every other mutation path resets: all remaining registries are wrapped, the wrapper's remaining
     mutators reset, the remaining settings classes reset, `reset()` clears every registered cache -/
